@@ -12,7 +12,8 @@ MC      MC_Compress, MaxOff in {4, 6, 9}: every step of PackImpl is allowed by P
 GEN     Gen_Compress (vectors checked against the spec itself: StreamOf(EncMsg(m)) finds WireRR!PlanMsg(m); hand-compressed octets are
         a transparent compressed form) -> harness `compress replay`: real Pack with Compress true / false -> events judged by
         Trace_Compress.  Modes: family (x, a.x, A.x, b.a.x, "a\\.x", \\097.x under the root and z.Z., 1-2 questions, NS + MX|SRV|RP),
-        multiq (2-3 questions), types (all 33 types with a name in RDATA: name = / one label below an earlier owner), pad (a TXT record
+        multiq (2-3 questions), first (per type and RDATA name field: a suffix FIRST seen inside that field -- HIP rendezvous
+        servers, SVCB target, RRSIG signer, NSEC next, SRV target ... -- then needed by later owner / NS / MX / CNAME names), types (all 33 types with a name in RDATA: name = / one label below an earlier owner), pad (a TXT record
         puts a first occurrence at 16382..16385).  Reverse direction in the same run: the spec's hand-compressed octets (pointer from
         every RDATA name to the question name) -> real Unpack must accept and read the vector's message.
 SEQ     every packing with compression (replay and record alike) is preceded, on the same goroutine (GOMAXPROCS 1, repeated twice
@@ -46,6 +47,8 @@ Mutants (checks/mutants/C04/*.diff; each `VERIF_REPO=/tmp/comp-x bin/check C04 q
                             compress/compressed-unreadable
   packbuffer-keeps-small-buffer.diff  caller buffer kept when it only holds the compressed form (seed C04-8) -> BUF: compress/packbuffer-error:types|zoo
                             (types variant 3: the pointer replaces a 25-octet label at the very end of the message)
+  hip-names-relative-offsets.diff  packDataDomainNames registers suffixes at field-relative offsets (seed C04-11) -> replay first (type HIP, field
+                            RendezvousServers) -> Trace_Compress compress/not-transparent:owner
 Non-vacuity of MC_Compress (run by hand, each invariant must be violated): NoPointerEver, NoLimitCrossed, AlwaysImpl, NoDeviationDecodes.
 """
 import os, json
@@ -183,6 +186,7 @@ def run(ctx):
         jobs += [lambda sh=sh: gen(ctx, binp, lay, names, "family", 0, fam, sh) for sh in ((ctx.seed * 7) % fam, (ctx.seed * 7 + 450) % fam)]
         jobs += [lambda: gen(ctx, binp, lay, names, "multiq", 0, 8, ctx.seed % 8),
                  lambda: gen(ctx, binp, lay, names, "types", 0, 1, 0),
+                 lambda: gen(ctx, binp, lay, names, "first", 0, 1, 0),
                  lambda: gen(ctx, binp, lay, names, "pad", 0, 1, 0)]
         jobs += [lambda k=k: rec(ctx, binp, lay, names, 300, False, k) for k in range(2)]
         jobs += [lambda k=k: rec(ctx, binp, lay, names, 8, True, 10 + k) for k in range(3)]
@@ -192,6 +196,7 @@ def run(ctx):
         jobs += [lambda sh=sh: gen(ctx, binp, lay, names, "family", 1, fam, sh) for sh in [(ctx.seed * 16 + j) % fam for j in range(16)]]
         jobs += [lambda sh=sh: gen(ctx, binp, lay, names, "multiq", 1, 2, sh) for sh in range(2)]
         jobs += [lambda: gen(ctx, binp, lay, names, "types", 1, 1, 0),
+                 lambda: gen(ctx, binp, lay, names, "first", 1, 1, 0),
                  lambda: gen(ctx, binp, lay, names, "pad", 1, 1, 0)]
         jobs += [lambda k=k: rec(ctx, binp, lay, names, 2500, False, k) for k in range(4)]
         jobs += [lambda k=k: rec(ctx, binp, lay, names, 40, True, 10 + k) for k in range(8)]
